@@ -40,10 +40,10 @@ def mutants(which):
         for d in sorted(glob.glob('/tmp/seed5/*/out/[mr]*/patch.diff')):
             parts = d.split('/')
             ms.append(('seed5/%s-%s' % (parts[3], parts[5]), d, False))
-    if 'seed8' in which:
-        for d in sorted(glob.glob('/tmp/seed8/*/out/[mr]*/patch.diff')):
+    if 'seed9' in which:
+        for d in sorted(glob.glob('/tmp/seed9/*/out/[mr]*/patch.diff')):
             parts = d.split('/')
-            ms.append(('seed8/%s-%s' % (parts[3], parts[5]), d, False))
+            ms.append(('seed9/%s-%s' % (parts[3], parts[5]), d, False))
     if 'unfix' in which:
         for h, s in fix_commits():
             ms.append(('unfix/%s %s' % (h, s[:60]), h, True))
